@@ -362,9 +362,13 @@ def gen_race_project(rng, *, conflict: bool = False) -> tuple[Project, dict]:
     if conflict:
         kind = rng.choice(["same-output", "same-static", "static-vs-output", "same-step", "tree-vs-file"])
         a, b = rng.sample(plans, 2)
+        # a working directory other than the root makes the label differ from the command (`cmd  # wd=w/`):
+        # the error text must name the step the same way whichever declaration came first
+        wda, wdb = (rng.choice([".", "w/"]), rng.choice([".", "w/", "v/"]))
+        info["workdirs"] = [wda, wdb]
         if kind == "same-output":
-            decls[a].append(A.step("dup a", inp=["src/a.txt"], out=["out/dup.txt"]))
-            decls[b].append(A.step("dup b", inp=["src/b.txt"], out=["out/dup.txt"]))
+            decls[a].append(A.step("dup a", inp=["src/a.txt"], out=["out/dup.txt"], workdir=wda))
+            decls[b].append(A.step("dup b", inp=["src/b.txt"], out=["out/dup.txt"], workdir=wdb))
         elif kind == "same-static":
             files["src/d.txt"] = "source d\n"
             decls[a].append(A.static("src/d.txt"))
@@ -372,7 +376,7 @@ def gen_race_project(rng, *, conflict: bool = False) -> tuple[Project, dict]:
         elif kind == "static-vs-output":
             files["out/mix.txt"] = "user file\n"
             decls[a].append(A.static("out/mix.txt"))
-            decls[b].append(A.step("mix", inp=["src/a.txt"], out=["out/mix.txt"]))
+            decls[b].append(A.step("mix", inp=["src/a.txt"], out=["out/mix.txt"], workdir=wdb))
         elif kind == "same-step":
             decls[a].append(A.step("twice", inp=["src/a.txt"], out=["out/twice.txt"]))
             decls[b].append(A.step("twice", inp=["src/a.txt"], out=["out/twice.txt"]))
@@ -890,6 +894,37 @@ def gen_amend_timing_project(rng) -> tuple[Project, dict]:
     scripts["./plan.py"] = plan
     project = Project(scripts=scripts, files={"src/a.txt": "a\n", "src/b.txt": "b\n", "plan.py": plan_file(plan)})
     return project, {"nfill": nfill, "producer": prod, "consumer": cons}
+
+
+def gen_deferred_producer_project(rng) -> tuple[Project, dict]:
+    """A producer that writes its output and then asks for an input that may not be there yet (it is
+    deferred and run again, reproducing a byte-identical output), a consumer that announces the
+    producer's output with `amend(inp=...)` (parked while the file is not final), and a slow step that
+    builds what the producer waits for, plus 0-2 fillers.  With one job and a lucky order nobody is
+    deferred; with several jobs the producer and the consumer are.  Whether the build succeeds must not
+    depend on that."""
+    scripts = {}
+    slow = f"slow g -n{rng.randint(2, 5)}"
+    scripts[slow] = [A.read_declared(), *[A.nop() for _ in range(int(slow[-1]))], A.write_declared()]
+    prod = f"make f -n{rng.randint(0, 2)}"
+    scripts[prod] = [A.read_declared(), A.write("out/f.txt"), *[A.nop() for _ in range(int(prod[-1]))],
+                     A.amend(inp=["out/g.txt"]), A.read("out/g.txt"), A.write("out/f2.txt")]
+    cons = f"use f -n{rng.randint(0, 3)}"
+    scripts[cons] = [A.read_declared(), *[A.nop() for _ in range(int(cons[-1]))], A.amend(inp=["out/f.txt"]),
+                     A.read("out/f.txt"), A.write_declared()]
+    steps = [A.step(slow, inp=["src/a.txt"], out=["out/g.txt"]),
+             A.step(prod, inp=["src/a.txt"], out=["out/f.txt", "out/f2.txt"]),
+             A.step(cons, inp=["src/b.txt"], out=["out/c.txt"])]
+    nfill = rng.randint(0, 2)
+    for i in range(nfill):
+        label = f"fill {i} -n{rng.randint(0, 3)}"
+        scripts[label] = [A.read_declared(), *[A.nop() for _ in range(int(label[-1]))], A.write_declared()]
+        steps.append(A.step(label, inp=[rng.choice(["src/a.txt", "src/b.txt"])], out=[f"out/fill{i}.txt"]))
+    rng.shuffle(steps)
+    plan = [A.static("src/a.txt", "src/b.txt"), *steps]
+    scripts["./plan.py"] = plan
+    project = Project(scripts=scripts, files={"src/a.txt": "a\n", "src/b.txt": "b\n", "plan.py": plan_file(plan)})
+    return project, {"nfill": nfill, "producer": prod, "consumer": cons, "slow": slow}
 
 
 def gen_tree_source_history(rng):
